@@ -263,6 +263,7 @@ def build():
     u.add(u.item(K + 'mode.rs', 'enum', 'SchedulingMode'))
     u.add(impl_block('SchedulingMode', [
         u.fn(K + 'mode.rs', 'as_u8', impl='SchedulingMode', ret='r', ensures=[C('C18.ctl.mode.as_u8', 'r == (if self is Classic { 0u8 } else { 1u8 })')]),
+        u.fn(K + 'mode.rs', 'is_classic', impl='SchedulingMode', ret='r', ensures=['r == (self is Classic)']),
         u.fn(K + 'mode.rs', 'from_u8', impl='SchedulingMode', ret='r', ensures=[C('C18.ctl.mode.from_u8_total_and_inverse', 'r == (if value == 0 { SchedulingMode::Classic } else { SchedulingMode::Enhanced })')]),
     ]))
     u.add(u.item(K + 'config_snapshot.rs', 'struct', 'ConfigSnapshot'))
@@ -369,8 +370,8 @@ pub proof fn lemma_method_names_distinct()
                    ('message: "parse error".into(),', 'message: String::new(),', 1), ('data: Some(Value::String(e.to_string())),', 'data: value_from_err(&e),', 1),
                    ('if req.jsonrpc != JSONRPC_VERSION {', 'if string_ne_str(&req.jsonrpc, JSONRPC_VERSION) {', 1),
                    (re.compile(r'return req\.id\.map\(\|id\| \{\s*Response::err\(\s*id,\s*ErrorObject::new\(INVALID_REQUEST, "[^;]*?"\),\s*\)\s*\}\);', re.S),
-                    'return (match req.id { Some(id) => Some(Response::err(id, error_object_new(INVALID_REQUEST))), None => None });', 1),
-                   ('req.id.clone().unwrap_or(', 'clone_opt_value(&req.id).unwrap_or(', 1),
+                    'return (match req.id { Some(id) => Some(Response::err(id, error_object_new(INVALID_REQUEST))), None => None });', None),
+                   ('req.id.clone().unwrap_or(', 'clone_opt_value(&req.id).unwrap_or(', None),
                    ('handle_method(config, stats, critical_window, &req.method, &req.params)', 'handle_method(config, stats, critical_window, string_as_str(&req.method), &req.params)', 1),
                    (_errnew, None, 0)]
     u.add(u.fn(CT, 'dispatch_inner', ret='r', post_rewrite=ENVELOPE_RW, ensures=envelope('dispatch')))
